@@ -272,6 +272,11 @@ class Executor(object):
             z = conc(c[1])
             if z == 0:
                 return NULL
+        # bytes that are provably zero (memset / zero initialiser) read as a null pointer
+        if not any(o_ < off + 8 and o_ + n_ > off for o_, (n_, _v) in p.obj.cells.items()):
+            raw = z3.simplify(z3.Concat(*[z3.Select(p.obj.arr, z3.BitVecVal(off + i, 64)) for i in range(7, -1, -1)]))
+            if conc(raw) == 0:
+                return NULL
         # unknown memory read as a pointer
         hook = p.obj.tag.get("ptr_loader")
         if hook is not None:
